@@ -705,6 +705,11 @@ func (b *builder) processNode(root node, flags flag, props *builderProp) (q quer
 			b.firstInput = q
 		}
 	}
+	if q == nil && err == nil {
+		// A variable reference or the namespace axis: there is no query for it,
+		// and a nil sub-query would only fail later, on evaluation.
+		err = errors.New("xpath: expression contains an unsupported variable reference or axis")
+	}
 	b.parseDepth--
 	return
 }
